@@ -8,7 +8,8 @@
 
    External behaviour NOT modelled: getaddrinfo(AI_NUMERICHOST) behind Ip::Address::operator=(const char * );
    it is the parameter `ipf` (text -> Some 16 address bytes | None).  For the text ParseIpPort renders
-   itself ("%d.%d.%d.%d" of four ints) the result is modelled directly: accepted iff every part is 0..255. *)
+   itself ("%ld.%ld.%ld.%ld" of four numbers already checked to be 0..255) the result is modelled directly:
+   that dotted quad. *)
 Require Import SquidV.Bytes SquidV.TokModel.
 Require Import SquidV.gen.Ftp_gen SquidV.gen.FtpSrc_gen.
 Local Open Scope N_scope.
@@ -26,7 +27,7 @@ Definition sat64 (v : Z) : Z :=
 Definition wrap32 (v : Z) : Z :=
   (let m := v mod two32 in if m >=? two31 then m - two32 else m)%Z.
 
-(* what "%d" stores / what `int x = strtol(...)` and atoi() yield for the mathematical value v *)
+(* what atoi() / `int x = strtol(...)` yield for the mathematical value v (EPLF size field) *)
 Definition to_int (v : Z) : Z := wrap32 (sat64 v).
 
 (* the subject sequence of strtol(,,10) and of scanf's %d: white space, optional sign, digits.
@@ -90,22 +91,26 @@ Definition assign (ipf : bytes -> option bytes) (text : bytes) : bytes :=
   match ipf text with Some a => a | None => zero16 end.
 
 (* force = None: forceIp == nullptr; Some t: forceIp = t.
-   Result: Some (16 address bytes, port) = true, None = false *)
+   Result: Some (16 address bytes, port) = true, None = false.
+   The six numbers are scanned with "%ld": glibc stores strtol()'s clamped long (sat64), no reduction modulo 2^32. *)
 Definition parse_ip_port (ipf : bytes -> option bytes) (sanity : bool) (force : option bytes) (buf : bytes)
   : option (bytes * Z) :=
-  match map to_int (scan_commas 6 buf) with
+  match map sat64 (scan_commas 6 buf) with
   | [h1; h2; h3; h4; p1; p2] =>
       if ((p1 <? 0) || (p2 <? 0) || (p1 >? 255) || (p2 >? 255))%Z then None else
-      let port := (p1 * 256 + p2)%Z in
+      (* "validate the IP we got even when it is not going to be used" *)
+      if negb (octet h1 && octet h2 && octet h3 && octet h4) then None else
+      let port := (p1 * 256 + p2)%Z in     (* static_cast<int>((p1 << 8) + p2): at most 65535 here *)
       let finish (a : bytes) :=
         if (port <=? 0)%Z then None
         else if sanity && (port <? 1024)%Z then None
         else Some (a, port) in
       match force with
-      | Some t => finish (assign ipf t)      (* h1..h4 are not looked at *)
+      | Some t => finish (assign ipf t)
       | None =>
-          (* snprintf "%d.%d.%d.%d" (at most 47 bytes into ipBuf[1024]); numeric lookup *)
-          let a := if octet h1 && octet h2 && octet h3 && octet h4 then v4mapped h1 h2 h3 h4 else zero16 in
+          (* snprintf "%ld.%ld.%ld.%ld" of four octets (at most 15 bytes into ipBuf[1024]); the numeric lookup of
+             a canonical dotted quad yields that address *)
+          let a := v4mapped h1 h2 h3 h4 in
           if is_any a then None else finish a
       end
   | _ => None
@@ -123,7 +128,7 @@ Definition parse_proto_ip_port (ipf : bytes -> option bytes) (sanity : bool) (bu
   | [] => EPrecondition                 (* s = buf + 1 is already past the terminator *)
   | delim :: s =>
       let '(protoL, e) := strtol10 s in
-      let proto := wrap32 protoL in      (* const int proto = strtol(...) *)
+      let proto := protoL in             (* const long proto = strtol(...): no conversion to int *)
       if negb ((proto =? 1) || (proto =? 2))%Z || negb (head0 e =? delim) then EFail else
       let s2 := dropN 1 e in
       match find_first (fun c => c =? delim) s2 with
